@@ -235,6 +235,15 @@ def check_idx(ctx, case, o):
             where = "inside" if case["probes"][i] < n else ("at-end" if case["probes"][i] == n else "beyond-end")
             ctx.violation("idx:%s:%s" % (case["kind"], where), "%s index %d of a table with %d entries (width %d): got %s, spec %s" %
                           (case["kind"], case["probes"][i], n, case["w"], got, e), case, o)
+    for i, (e, got) in enumerate(zip(case.get("big_exp", []), o.get("big", []))):
+        if isinstance(got, dict) and got.get("outcome") == "panic":
+            # a C01 matter in the debug profile (BUILDING rule 3); the release profile wraps and is judged below
+            ctx.drift.append({"where": "idx.%s.index-overflow" % case["kind"], "index": case["big_probes"][i],
+                              "gimli": "panic %s at %s" % (got.get("msg"), got.get("loc")), "note": "C01: index * size overflows"})
+        elif mismatch(e, got, "x"):
+            ctx.violation("idx:%s:index-overflow:wrapped" % case["kind"],
+                          "%s index %s (far beyond a table of %d entries, width %d) returned %s instead of an error" %
+                          (case["kind"], case["big_probes"][i], sum(1 for x in case["exp"] if not is_err(x)), case["w"], got), case, o)
     if not is_err(o["bad_base"]):
         ctx.violation("idx:%s:base-beyond-end" % case["kind"], "base beyond the section accepted: %s" % o["bad_base"], case, o)
 
@@ -294,7 +303,7 @@ def validate_lookup_trace(ctx, trace, tag):
     removed, and validation continues (a rejected table event ends that trace)."""
     lines = [l for l in open(trace) if l.strip()]
     accepted = 0
-    for attempt in range(6):
+    for attempt in range(3):
         p = os.path.join(ctx.work, "trace-%s-%d.ndjson" % (tag, attempt))
         with open(p, "w") as f:
             f.writelines(lines)
